@@ -202,11 +202,13 @@ func bApply(s *bstate, in bIn, out bOut) *bstate {
 	case bGet:
 		i := s.find(in.Cons)
 		if out.Err != "" {
+			// an error is legal when the consumer's next value has been evicted (whatever the message says), when
+			// the driver cancelled this Get, or when the consumer is (being) closed
+			if i >= 0 && s.cons[i].committed+s.cons[i].delta < s.base {
+				return s
+			}
 			if out.ErrPast {
-				if i >= 0 && s.cons[i].committed+s.cons[i].delta < s.base {
-					return s
-				}
-				return nil
+				return nil // reported as fallen behind although its next value is still retained
 			}
 			if in.CancelledBeforeReturn || in.CloseCalledBeforeReturn || s.isClosed(in.Cons) {
 				return s
